@@ -169,6 +169,8 @@ pub fn nondet_unreachable() requires false { unimplemented!() }
 
 //@extract id=ssh_pump file=netconf/src/transport/ssh.rs impl=/impl Ssh/ fn=connect block=/tokio::spawn\(async move / rules=R2,R3,R4,R14,R17 consts=MARKER
 //@sig pub fn ssh_pump(mut out_queue_rx: OutRx, channel: &mut Channel, in_queue_tx: &mut InTx) -> (res: Result<(), Error>)
+//@local in_buf /let mut (\w+) = BytesMut::new\(\)/
+//@local message_break /let (\w+) = Finder::new\(/
 //@contract
     requires old(channel).received@ == Seq::<u8>::empty(), !old(channel).eof_seen@,
     ensures
